@@ -20,9 +20,13 @@ def loop_vars(enc):
         for (bb, term, vals, neg, dty) in p.conds:
             if term[0] == "bin" and term[1] == "Lt" and term[2][0] == "var" and enc.classify(term[3]) == "n":
                 read = term[2]
-            if term[0] == "bin" and term[1] == "Eq" and term[2][0] == "var" and term[3][0] == "const":
-                cnt = term[2]
-                gsize = term[3][1]
+            if term[0] == "bin" and term[1] == "Eq" and term[3][0] == "const":
+                x = term[2]
+                if x[0] == "field" and x[1][0] == "bin" and x[1][1].startswith("Add") and x[1][3] == ("const", 1, x[1][3][2]) and x[1][2][0] == "var":
+                    x = x[1][2]     # tested right after the increment: same group size
+                if x[0] == "var":
+                    cnt = x
+                    gsize = term[3][1]
     return read, cnt, gsize
 
 
@@ -93,6 +97,9 @@ def token_checks(rep, R2, R4, enc, forms, where, flag_shift=7):
                 adv["ref"].add(fmt(norm(nread)))
             # flag bit
             for f in flags:
+                if not (f[1][0] == "bin" and len(f[1]) > 3):
+                    seen_forms["flag"] = "flag byte is overwritten with %s after the token was recorded" % fmt(f[1])[:40]
+                    continue
                 x = f[1][3]
                 while x[0] == "cast":
                     x = x[1]
@@ -176,26 +183,55 @@ def token_checks(rep, R2, R4, enc, forms, where, flag_shift=7):
     else:
         rep.violation(R4, enc.body.name, "group-size", "a group is flushed at %s tokens, specified 8" % gsize, where)
     # tail flush: after the loop, iff at least one token is buffered
+    rets = [p for p in enc.paths if p.end == "ret"]
+    def flushes(p):
+        return [e for e in p.events if e["k"] == "call" and e["callee"] and e["callee"].rsplit("::", 1)[-1] in ("extend_from_slice", "append", "extend")]
+    with_f = [p for p in rets if flushes(p)]
+    without_f = [p for p in rets if not flushes(p)]
     tail = None
-    for p in enc.paths:
-        if p.end == "ret":
-            for (bb, term, vals, neg, dty) in p.conds:
-                ct = cond_truth((term, vals, neg, dty))
-                if ct and ct[0][0] == "bin" and ct[0][1] in ("Gt", "Ne", "Ge") and ct[0][2] == cnt:
-                    flushed = any(e["k"] == "call" and e["callee"] and e["callee"].rsplit("::", 1)[-1] in ("extend_from_slice", "append", "extend") for e in p.events[-4:])
-                    thr = ct[0][3][1] if ct[0][3][0] == "const" else None
-                    op = ct[0][1]
-                    nonempty = ct[1] if (op, thr) in (("Gt", 0), ("Ne", 0), ("Ge", 1)) else None
-                    if nonempty is None:
-                        tail = "tail flush is conditioned on %s" % fmt(ct[0])
-                    elif flushed != nonempty:
-                        tail = "tail flush happens %s tokens are buffered" % ("when no" if flushed else "not when")
-                    elif tail is None:
-                        tail = True
+    if not with_f:
+        tail = "no tail flush after the loop"
+    elif not without_f:
+        tail = "the tail flush is unconditional: an input whose token count is a multiple of the group size (or the empty input) gets a stray flag byte"
+    else:
+        # the deciding condition is the last one of the flushing path
+        bb, term, vals, neg, dty = with_f[0].conds[-1]
+        ct = cond_truth((term, vals, neg, dty))
+        good = False
+        desc = fmt(term)[:60]
+        if ct:
+            t, truth = ct
+            neg_ = False
+            while t[0] == "un" and t[1] == "Not":
+                t = t[2]
+                truth = not truth
+            if t[0] == "bin" and t[3][0] == "const":
+                op, k = t[1], t[3][1]
+                subject = t[2]
+                # normalise to "subject >= m" holding on the flushing path
+                m = None
+                if truth:
+                    m = {"Gt": k + 1, "Ge": k, "Ne": (1 if k == 0 else None)}.get(op)
+                else:
+                    m = {"Le": k + 1, "Lt": k, "Eq": (1 if k == 0 else None)}.get(op)
+                if subject == cnt and m is not None and m == 1:
+                    good = True
+                elif m is not None and subject != cnt:
+                    # a byte count of the group buffer: it always holds the flag byte, so >= 2 means a token is buffered
+                    is_len = subject[0] == "var" or (subject[0] == "call" and subject[1].endswith("::len"))
+                    if is_len and m == 2:
+                        good = True
+                    desc = "%s >= %s" % (fmt(subject)[:40], m)
+            elif t[0] == "call" and t[1].endswith("::is_empty"):
+                desc = "%s%s" % ("" if truth else "!", fmt(t)[:50])
+        if good:
+            tail = True
+        else:
+            tail = "the tail flush is conditioned on `%s`, which also holds when no token is buffered (the group buffer always contains its flag byte): a stray flag byte is appended" % desc
     if tail is True:
         rep.ok(R4, {"tail": "flushed iff tokens are buffered"})
     else:
-        rep.violation(R4, enc.body.name, "tail-flush", tail or "no tail flush after the loop", where)
+        rep.violation(R4, enc.body.name, "tail-flush", tail, where)
     return thresholds
 
 
